@@ -31,7 +31,9 @@ RULE = ('meta: seeded tree with k <= 3 sub-Manifests, 0..2 mutations; all 5**k f
         'assignments (sampled to 25 in quick) x {keep-going verify of "" and of a '
         'sub-directory, find_path_entry, find_dist_entry}; wm: watermark in {0, s-1, s, '
         's+1 for every Manifest size s, max+1} x target format x forced/unforced x 2..4 '
-        'consecutive saves. Non-trivial = at least one sub-Manifest; distinct = hash of '
+        'consecutive saves, on one loader or fresh ones, settings per call or from the '
+        'constructor, with agreeing duplicate entries (MANIFEST / DATA twins). Non-trivial '
+        '= at least one sub-Manifest; distinct = hash of '
         'the case.')
 ANCHORS = ['recursiveloader:ManifestRecursiveLoader.save_manifests',
            'recursiveloader:ManifestRecursiveLoader.save_manifest',
